@@ -37,6 +37,8 @@ pub enum TK {
     File,
     Dir,
     Link,
+    /// a link to a directory (chain link -> link -> dir)
+    LinkDir,
     Missing,
     /// T == L or T below L: necessarily missing at creation and resolving it walks through L
     Cyclic,
@@ -48,6 +50,7 @@ impl TK {
             TK::File => "file",
             TK::Dir => "dir",
             TK::Link => "link>file",
+            TK::LinkDir => "link>dir",
             TK::Missing => "missing",
             TK::Cyclic => "self/below-link",
         }
@@ -61,7 +64,7 @@ impl TK {
         }
     }
     fn parse(s: &str) -> Option<TK> {
-        [TK::File, TK::Dir, TK::Link, TK::Missing, TK::Cyclic].into_iter().find(|k| k.name() == s)
+        [TK::File, TK::Dir, TK::Link, TK::LinkDir, TK::Missing, TK::Cyclic].into_iter().find(|k| k.name() == s)
     }
 }
 
@@ -95,7 +98,7 @@ pub fn groups(depth: usize) -> Vec<Group> {
             } else if t == "/" || is_under(l, t) {
                 vec![TK::Dir] // root or a proper ancestor of the link: exists as a directory
             } else {
-                vec![TK::File, TK::Dir, TK::Link, TK::Missing]
+                vec![TK::File, TK::Dir, TK::Link, TK::LinkDir, TK::Missing]
             };
             for k in kinds {
                 out.push(Group { l: l.clone(), t: t.clone(), kind: k });
@@ -136,6 +139,10 @@ pub fn pre_tree(g: &Group) -> Tree {
         TK::Link => {
             dirs_to(&mut t, &g.t);
             t.insert(&g.t, Node::link(ZF));
+        },
+        TK::LinkDir => {
+            dirs_to(&mut t, &g.t);
+            t.insert(&g.t, Node::link(ZD));
         },
         TK::Missing | TK::Cyclic => {},
     }
@@ -448,6 +455,9 @@ fn kind_flags(k: TK) -> (Option<bool>, Option<bool>) {
         TK::Dir => (Some(true), Some(false)),
         TK::File => (Some(false), Some(true)),
         TK::Link => (Some(false), None),
+        // a link to a link to a directory points to a directory: the trait docs say the query checks
+        // "the path itself and what it points to", and both backends follow the chain
+        TK::LinkDir => (Some(true), None),
         TK::Missing | TK::Cyclic => (None, None),
     }
 }
